@@ -259,13 +259,14 @@ class RoleReach:
         self.states = {}  # key -> (via site, parent key)
         self.funcs = {}  # qual -> first key
         self.live_nodes = {}  # key -> set of cfg node ids
+        self.locks = get_locks(program)
         st = []
         for r in roots:
             f, c = (r if isinstance(r, tuple) else (r, None))
-            st.append((f, c, frozenset(), None, None))
+            st.append((f, c, frozenset(), frozenset(), None, None))
         while st:
-            f, c, ctx, via, parent = st.pop()
-            key = (f.qual, c.qual if c is not None else None, ctx)
+            f, c, ctx, held, via, parent = st.pop()
+            key = (f.qual, c.qual if c is not None else None, ctx, held)
             if key in self.states:
                 continue
             self.states[key] = (via, parent)
@@ -287,7 +288,8 @@ class RoleReach:
                             continue
                         for (t, rc) in self.cg.site_edges(s, c):
                             nctx = self._callee_ctx(s, t, ctxd)
-                            st.append((t, rc, nctx, s, key))
+                            nheld = frozenset(held | self.locks.held_at_call(s))
+                            st.append((t, rc, nctx, nheld, s, key))
 
     def _live(self, g, ctx):
         seen = {g.entry.id}
@@ -334,6 +336,8 @@ class RoleReach:
             via, parent = self.states[key]
             ctx = ",".join("%s=%r" % kv for kv in sorted(key[2]))
             label = key[0] + ("[%s]" % ctx if ctx else "")
+            if key[3]:
+                label += " {holding %s}" % ",".join(sorted(key[3]))
             if via is not None:
                 label += " (called at %s)" % via.loc
             out.append(label)
